@@ -30,6 +30,7 @@ type Cfg struct {
 	MapOrderReverse bool
 	MapOrderIn      string // explore every iteration order of maps with 2..3 entries ranged over in functions whose name contains this
 	SolverTimeoutMs int
+	StopAfterViolations int // stop exploring a harness after this many violating paths (0 = never)
 	SlowBudget      int  // slow=N: how often time may pass while a goroutine is runnable
 	SchedFIFO       bool // sched=fifo: no scheduling decisions (run to block, then the oldest runnable goroutine)
 	Workers         int
@@ -213,6 +214,7 @@ type Explorer struct {
 	Queries        int
 	SolverTime     time.Duration
 	UnknownQ       int
+	StoppedEarly   bool // exploration ended after cfg.StopAfterViolations violating paths
 	SecondOpinions int // queries re-asked to a second solver after a timeout
 	Transitions    int
 	MaxDecDepth    int
@@ -309,7 +311,13 @@ func (w *Worker) loop() {
 		ex.mu.Lock()
 		ex.busy--
 		ex.record(res, funcs)
-		if ex.Paths >= ex.cfg.MaxPaths && (len(ex.queue) > 0 || ex.busy > 0) {
+		if ex.cfg.StopAfterViolations > 0 && len(ex.Violations) >= ex.cfg.StopAfterViolations && !ex.stop && (len(ex.queue) > 0 || ex.busy > 0) {
+			// enough counterexamples to replay: the property is violated, the rest of the
+			// path space would only cost time
+			ex.stop = true
+			ex.StoppedEarly = true
+		}
+		if ex.Paths >= ex.cfg.MaxPaths && !ex.stop && (len(ex.queue) > 0 || ex.busy > 0) {
 			ex.stop = true
 			ex.Problems = append(ex.Problems, &PathResult{Outcome: outcomeBound, Msg: fmt.Sprintf("path bound %d exceeded", ex.cfg.MaxPaths)})
 		}
